@@ -825,7 +825,8 @@ class StoreModel:
             for n in own_nodes(f.node):
                 if isinstance(n, ast.Subscript) and isinstance(n.ctx, ast.Store) and is_self_attr(n.value) and \
                         isinstance(getattr(n, '_parent', None), ast.Assign) and isinstance(n._parent.value, ast.Name) and \
-                        n._parent.value.id in f.params and 'predicate' in n.value.attr:
+                        n._parent.value.id in f.params and n.value.attr not in ('eval_context',) and f.cls is em.YP and \
+                        ('predicate' in n.value.attr or isinstance(n.slice, ast.Tuple)):
                     self.field = n.value.attr
                     self.publishers.append((f, n._parent.value.id))
         if self.field is None:
